@@ -50,6 +50,13 @@ class LayoutFolder(Folder):
             raise Raised("AxisError")
         return a % p.n
 
+    def e_Attribute(self, n, env):
+        if n.attr == "ndim":
+            v = self.ev(n.value, env)
+            if isinstance(v, Perm):
+                return v.n
+        return super().e_Attribute(n, env)
+
     def c_np_swapaxes(self, a, kw):
         p = a[0]
         if not isinstance(p, Perm):
